@@ -90,6 +90,8 @@ enum Resp {
     Chunk(Vec<u8>, bool),
     Error,
     Cut,
+    /// the peer keeps the connection open and never answers (only with a caller that gives up: `cancel`)
+    Hang,
 }
 #[derive(Clone, Copy, PartialEq, Debug)]
 enum Open {
@@ -187,12 +189,14 @@ fn resp_word(r: &Resp) -> String {
         Resp::Chunk(b, l) => format!("c:{}:{}", body_word(b), *l as u8),
         Resp::Error => "e".into(),
         Resp::Cut => "x".into(),
+        Resp::Hang => "h".into(),
     }
 }
 fn parse_resp(w: &str) -> Option<Resp> {
     match w {
         "e" => Some(Resp::Error),
         "x" => Some(Resp::Cut),
+        "h" => Some(Resp::Hang),
         _ => {
             let p: Vec<&str> = w.split(':').collect();
             if p.len() == 3 && p[0] == "c" {
@@ -414,7 +418,8 @@ fn read_frame(s: &mut TcpStream) -> Option<RawFrame> {
 type Reg = Arc<Mutex<HashMap<String, Arc<Sess>>>>;
 
 enum Act {
-    Reply(Vec<u8>),
+    /// the frame and the style of the session it belongs to (how to put it on the wire)
+    Reply(Vec<u8>, u64),
     Silent,
     Close,
 }
@@ -422,7 +427,45 @@ enum Act {
 fn frame(id: u64, ec: u32, qfmt: u16, q: &[u8], bfmt: u16, b: &[u8]) -> Act {
     let mut f = RawFrame::request(id, false, qfmt, q, bfmt, b);
     f.h.ec = ec;
-    Act::Reply(f.to_vec())
+    Act::Reply(f.to_vec(), 0)
+}
+
+fn styled(a: Act, st: u64) -> Act {
+    match a {
+        Act::Reply(b, _) => Act::Reply(b, st),
+        a => a,
+    }
+}
+
+/// Put one frame on a TCP connection the way the style says (bits 18-20): whole; byte by byte (small
+/// frames); 2-3 pieces cut inside the header / at 48 / inside the query / inside the body; the same with a
+/// stall between the pieces; segment-sized pieces.  WHAT arrives is the same; only how.
+fn write_fragmented(s: &mut TcpStream, b: &[u8], st: u64) -> bool {
+    let mode = (st >> 18) & 7;
+    let mut rng = Rng::new(st ^ (b.len() as u64).wrapping_mul(0x9E37_79B9));
+    let mut cuts: Vec<usize> = match mode {
+        1 if b.len() <= 400 => (1..b.len()).collect(),
+        1 | 4 => (1..b.len()).filter(|i| i % 1460 == 0).collect(),
+        2 | 3 | 5 => {
+            let cands = [1 + rng.below(47) as usize, 48, 48 + 1, 49 + rng.below(b.len().max(50) as u64 - 49) as usize, b.len().saturating_sub(1)];
+            let k = 1 + rng.below(2) as usize;
+            (0..k).map(|_| *rng.pick(&cands)).filter(|c| *c > 0 && *c < b.len()).collect()
+        }
+        _ => vec![],
+    };
+    cuts.sort();
+    cuts.dedup();
+    let mut at = 0;
+    for c in cuts.into_iter().chain(std::iter::once(b.len())) {
+        if s.write_all(&b[at..c]).is_err() || s.flush().is_err() {
+            return false;
+        }
+        at = c;
+        if at < b.len() && (mode == 3 || (mode == 5 && rng.below(8) == 0)) {
+            std::thread::sleep(Duration::from_millis(if mode == 5 { 60 } else { 2 }));
+        }
+    }
+    true
 }
 
 /// What the scripted peer does with one request (shared by the TCP and the WebSocket front end).
@@ -461,7 +504,7 @@ fn answer(f: &RawFrame, reg: &Reg, ids: &AtomicU64, streams: &mut HashMap<u64, A
                             r.compression = 7;
                         }
                     }
-                    frame(f.h.id, 0, 0, b"", 1, &beve::to_vec(&r).unwrap())
+                    styled(frame(f.h.id, 0, 0, b"", 1, &beve::to_vec(&r).unwrap()), st)
                 }
             }
         }
@@ -480,14 +523,15 @@ fn answer(f: &RawFrame, reg: &Reg, ids: &AtomicU64, streams: &mut HashMap<u64, A
                 Resp::Chunk(b, last) => {
                     // `last` is "the first query byte is 1": every other query is a non-final chunk
                     let q: &[u8] = if last { [&[1u8][..], &[1, 0], &[1, 9, 9]][((st >> 3) & 3) as usize % 3] } else { [&[0u8][..], &[], &[2], &[0, 1], &[255]][(st & 7) as usize % 5] };
-                    frame(f.h.id, 0, ((st >> 13) & 1) as u16, q, ((st >> 14) & 1) as u16, &b)
+                    styled(frame(f.h.id, 0, ((st >> 13) & 1) as u16, q, ((st >> 14) & 1) as u16, &b), st)
                 }
                 Resp::Error => {
                     let ec = [9u32, 1, 5, 4096, 77, 3][((st >> 5) & 7) as usize % 6];
                     let body: &[u8] = if (st >> 8) & 1 == 1 { &[0xff, 0xfe, 0x00, 0x80] } else { b"producer failed" };
-                    frame(f.h.id, ec, 0, b"", 3, body)
+                    styled(frame(f.h.id, ec, 0, b"", 3, body), st)
                 }
                 Resp::Cut => Act::Close,
+                Resp::Hang => Act::Silent,
             }
         }
         _ => frame(f.h.id, 6, 0, b"", 3, b"no route"),
@@ -499,8 +543,8 @@ fn fake_conn(mut s: TcpStream, reg: Reg, ids: Arc<AtomicU64>) {
     let mut streams: HashMap<u64, Arc<Sess>> = HashMap::new();
     while let Some(f) = read_frame(&mut s) {
         match answer(&f, &reg, &ids, &mut streams) {
-            Act::Reply(b) => {
-                if s.write_all(&b).is_err() || s.flush().is_err() {
+            Act::Reply(b, st) => {
+                if !write_fragmented(&mut s, &b, st) {
                     return;
                 }
             }
@@ -525,7 +569,7 @@ async fn fake_ws_conn(s: tokio::net::TcpStream, reg: Reg, ids: Arc<AtomicU64>) {
         let Ws::Binary(payload) = m else { continue };
         let Some((f, _)) = RawFrame::parse_prefix(&payload) else { return };
         match answer(&f, &reg, &ids, &mut streams) {
-            Act::Reply(b) => {
+            Act::Reply(b, _) => {
                 if ws.send(Ws::Binary(b.into())).await.is_err() {
                     return;
                 }
@@ -604,6 +648,9 @@ fn rej() -> RepeError {
 struct FaultyDigest {
     buf: Vec<u8>,
     limit: Option<(u64, bool)>,
+    /// 0 plain, 1 short writes (one byte per call), 2 `Interrupted` on every other call, 3 slow
+    mode: u8,
+    calls: u64,
 }
 impl Write for FaultyDigest {
     fn write(&mut self, b: &[u8]) -> std::io::Result<usize> {
@@ -614,6 +661,16 @@ impl Write for FaultyDigest {
                 }
                 return Err(std::io::Error::other("digest sink refused"));
             }
+        }
+        self.calls += 1;
+        match self.mode {
+            1 if !b.is_empty() => {
+                self.buf.push(b[0]);
+                return Ok(1);
+            }
+            2 if self.calls % 2 == 1 => return Err(std::io::Error::new(std::io::ErrorKind::Interrupted, "try again")),
+            3 => std::thread::sleep(Duration::from_micros(300)),
+            _ => {}
         }
         self.buf.extend_from_slice(b);
         Ok(b.len())
@@ -648,10 +705,11 @@ struct Knobs {
     verify_kind: u8,
     dfault: Option<(u64, bool)>,
     via_ps: bool,
+    digest_mode: u8,
 }
 impl Knobs {
     fn of(sc: &Script) -> Knobs {
-        Knobs { verify_ok: sc.verify_ok, verify_kind: sc.verify_kind, dfault: sc.dfault, via_ps: sc.via_ps }
+        Knobs { verify_ok: sc.verify_ok, verify_kind: sc.verify_kind, dfault: sc.dfault, via_ps: sc.via_ps, digest_mode: ((sc.style >> 21) & 3) as u8 }
     }
 }
 
@@ -694,7 +752,7 @@ fn call_on(rt: &tokio::runtime::Runtime, conn: &Conn, p: Puller, resource: &str,
             verify_behaviour(k)
         }
     };
-    let dg = FaultyDigest { buf: vec![], limit: k.dfault };
+    let dg = FaultyDigest { buf: vec![], limit: k.dfault, mode: k.digest_mode, calls: 0 };
     match conn {
         Conn::Ws(c) => rt.block_on(async move {
             match p {
@@ -1123,7 +1181,7 @@ fn hits_cut(sc: &Script) -> bool {
         match r {
             Resp::Chunk(_, false) => continue,
             Resp::Chunk(_, true) | Resp::Error => return false,
-            Resp::Cut => return true,
+            Resp::Cut | Resp::Hang => return true,
         }
     }
     true // the answers run out: the peer closes
@@ -1261,6 +1319,7 @@ struct FailingReader {
     /// die with a panic instead of returning an error
     panics: bool,
     slow: bool,
+    calls: u64,
 }
 
 /// A value whose `Serialize` impl panics when it reaches element `at` (a dying producer body).
@@ -1301,6 +1360,10 @@ impl Read for FailingReader {
         }
         if self.slow {
             std::thread::sleep(Duration::from_millis(2));
+        }
+        self.calls += 1;
+        if self.calls % 3 == 0 {
+            return Err(std::io::Error::new(std::io::ErrorKind::Interrupted, "try again"));
         }
         // small reads so that the sink sees many write sizes
         let n = out.len().min(limit - self.pos).min(7);
@@ -1357,7 +1420,7 @@ fn start_real(r: &Real, zstd: bool) -> SocketAddr {
             opts,
         )
     } else {
-        Router::new().with_reader_stream(move |res: &str| (res == "blob").then(|| FailingReader { data: payload.clone(), pos: 0, fail_at: fail, panics, slow }), opts)
+        Router::new().with_reader_stream(move |res: &str| (res == "blob").then(|| FailingReader { data: payload.clone(), pos: 0, fail_at: fail, panics, slow, calls: 0 }), opts)
     };
     let server = Server::new(router);
     let l = server.listen("127.0.0.1:0").expect("bind");
@@ -2164,7 +2227,7 @@ fn gen_and_run(args: &Args, out: &mut Out, ctx: &mut Ctx) {
             sc.open = *rng.pick(&[Open::Err, Open::Cut]);
         }
         if rng.chance(2, 3) {
-            sc.style = rng.next() & 0x3ffff;
+            sc.style = rng.next() & 0x7fffff;
         }
         sc.via_ps = !p.is_async() && !p.has_trailer() && rng.chance(1, 2);
         if p.verifies() && rng.chance(1, 6) {
@@ -2188,7 +2251,7 @@ fn gen_and_run(args: &Args, out: &mut Out, ctx: &mut Ctx) {
                 for (fault, dest) in [(None, Dest::None), (None, Dest::Old), (Some((0usize, Resp::Error)), Dest::Old), (Some((0usize, Resp::Cut)), Dest::None)] {
                     let mut sc = make_script(p, false, &[], &[4], fault, true);
                     sc.dest = dest;
-                    sc.style = rng.next() & 0x3ffff;
+                    sc.style = rng.next() & 0x7fffff;
                     ctx.exec_script(out, &next("b"), &sc, 0);
                 }
             }
@@ -2204,7 +2267,7 @@ fn gen_and_run(args: &Args, out: &mut Out, ctx: &mut Ctx) {
             let mk = |rng: &mut Rng, fault: Option<(usize, Resp)>| {
                 let mut sc = make_script(p, zstd, &logical, &[17, 5, 23], fault, rng.chance(1, 2));
                 sc.dest = *rng.pick(&[Dest::None, Dest::Old]);
-                sc.style = rng.next() & 0x3ffff;
+                sc.style = rng.next() & 0x7fffff;
                 sc.via_ps = !p.is_async() && !p.has_trailer() && rng.chance(1, 2);
                 sc
             };
